@@ -92,7 +92,26 @@ def nameInType (name : String) : Schema → Bool
     `Sequence(Alternative([Null()], ["null"], default=None), Union())` -/
 def forcedNull : Sym := .seq [.term .union none, .alt [.term .null none] ["null"] (some .none)]
 
-mutual
+/-- the field loop of `_process_record`; `again = some name` when the record was met before; `b` is `_parse` -/
+def buildFieldsWith (b : List String → Schema → Option Val → R (Sym × List String)) (again : Option String) :
+    List String → List Field → R (List Sym × List String)
+  | proc, [] => pure ([.recordEnd], proc)
+  | proc, f :: rest => do
+    let (t, proc) ← match again with
+      | some name => if nameInType name f.type then pure (forcedNull, proc) else b proc f.type f.default
+      | none => b proc f.type f.default
+    let (more, proc) ← buildFieldsWith b again proc rest
+    pure (.fieldStart f.name :: t :: .fieldEnd :: more, proc)
+
+/-- the branch loop of the union case -/
+def buildListWith (b : List String → Schema → Option Val → R (Sym × List String)) :
+    List String → List Schema → R (List Sym × List String)
+  | proc, [] => pure ([], proc)
+  | proc, x :: rest => do
+    let (y, proc) ← b proc x none
+    let (ys, proc) ← buildListWith b proc rest
+    pure (y :: ys, proc)
+
 /-- `Parser._parse(schema, default)`; `proc` is `_processed_records` -/
 def build (fuel : Nat) (env : Env) (proc : List String) (s : Schema) (dflt : Option Val) : R (Sym × List String) :=
   match fuel with
@@ -101,13 +120,13 @@ def build (fuel : Nat) (env : Env) (proc : List String) (s : Schema) (dflt : Opt
   match s with
   | .record name fields _ =>
     if proc.contains name then do
-      let (body, proc) ← buildFields fuel env proc (some name) fields
+      let (body, proc) ← buildFieldsWith (build fuel env) (some name) proc fields
       pure (.seq (.recordStart dflt :: body), proc)
     else do
-      let (body, proc) ← buildFields fuel env (proc ++ [name]) none fields
+      let (body, proc) ← buildFieldsWith (build fuel env) none (proc ++ [name]) fields
       pure (.seq (.recordStart dflt :: body), proc)
   | .union bs => do
-    let (syms, proc) ← buildList fuel env proc bs
+    let (syms, proc) ← buildListWith (build fuel env) proc bs
     pure (.seq [.term .union none, .alt syms (bs.map label) dflt], proc)
   | .map values => do
     let (v, proc) ← build fuel env proc values none
@@ -124,53 +143,66 @@ def build (fuel : Nat) (env : Env) (proc : List String) (s : Schema) (dflt : Opt
     | some s' => build fuel env proc s' dflt
     | none => .error .other                 -- Exception("Unhandled type")
 
-/-- the field loop of `_process_record`; `again = some name` when the record was met before -/
-def buildFields (fuel : Nat) (env : Env) (proc : List String) (again : Option String) : List Field → R (List Sym × List String)
-  | [] => pure ([.recordEnd], proc)
-  | f :: rest => do
-    let (t, proc) ← match again with
-      | some name => if nameInType name f.type then pure (forcedNull, proc) else build fuel env proc f.type f.default
-      | none => build fuel env proc f.type f.default
-    let (more, proc) ← buildFields fuel env proc again rest
-    pure (.fieldStart f.name :: t :: .fieldEnd :: more, proc)
-
-/-- the branch loop of the union case -/
-def buildList (fuel : Nat) (env : Env) (proc : List String) : List Schema → R (List Sym × List String)
-  | [] => pure ([], proc)
-  | b :: rest => do
-    let (x, proc) ← build fuel env proc b none
-    let (xs, proc) ← buildList fuel env proc rest
-    pure (x :: xs, proc)
-end
-
 /-- `Parser.parse()`: the initial stack `[root, symbol]` (top = `symbol`) -/
 def initialStack (fuel : Nat) (env : Env) (s : Schema) : R (List Sym) := do
   let (g, _) ← build fuel env [] s none
   pure [g, .root g]
 
-/-- `stack.extend(top.production)` -/
-def expand (top : Sym) : List Sym :=
-  match top with
-  | .root body => [body, top]
-  | .seq prod => prod
-  | .rep _ body => body ++ [top]
-  | .alt syms _ _ => syms.reverse
-  | _ => []                                   -- production is None: `extend(None)` is a TypeError, see `advance`
+/-! ### `Parser.advance`
+
+`advance(symbol)` is a loop: pop the top; a terminal of the wanted class ends it; an action is executed;
+any other terminal is an error; a repeater whose end marker is wanted ends it; everything else is replaced
+by its production.  The model computes the same result by recursion over the structure of the symbols
+instead of by iteration over a growing stack: `advS k sym` works through the expansion of ONE symbol and
+returns either `some (found, rem)` — the terminal found and what is left of this symbol's expansion (to be put
+back on the stack, top first) — or `none` when the symbol was used up without meeting a terminal (only
+actions).  A repeater or the root symbol used up in that way would be expanded again for ever (`.fuel`). -/
+mutual
+def advS {σ : Type} (act : Sym → σ → R σ) (k : TK) : Sym → σ → R (Option (Sym × List Sym) × σ)
+  | .term k' d, st => if k' == k then .ok (some (.term k' d, []), st) else .error .other   -- "Internal Parser Exception"
+  | .seq prod, st => advL act k prod st
+  | .rep e body, st =>
+      if e == k then .ok (some (.term k none, []), st)
+      else match advL act k body st with
+        | .ok (some (y, rem), st') => .ok (some (y, rem ++ [.rep e body]), st')
+        | .ok (none, _) => .error .fuel
+        | .error x => .error x
+  | .root body, st =>
+      match advS act k body st with
+        | .ok (some (y, rem), st') => .ok (some (y, rem ++ [.root body]), st')
+        | .ok (none, _) => .error .fuel
+        | .error x => .error x
+  | .alt syms _ _, st => advR act k syms st
+  | .enumLabels l, st => do let st' ← act (.enumLabels l) st; pure (none, st')
+  | .unionEnd, st => do let st' ← act .unionEnd st; pure (none, st')
+  | .recordStart d, st => do let st' ← act (.recordStart d) st; pure (none, st')
+  | .recordEnd, st => do let st' ← act .recordEnd st; pure (none, st')
+  | .fieldStart n, st => do let st' ← act (.fieldStart n) st; pure (none, st')
+  | .fieldEnd, st => do let st' ← act .fieldEnd st; pure (none, st')
+/-- a stack (or a production stored top-first) -/
+def advL {σ : Type} (act : Sym → σ → R σ) (k : TK) : List Sym → σ → R (Option (Sym × List Sym) × σ)
+  | [], st => .ok (none, st)
+  | x :: xs, st =>
+      match advS act k x st with
+      | .ok (some (y, rem), st') => .ok (some (y, rem ++ xs), st')
+      | .ok (none, st') => advL act k xs st'
+      | .error x => .error x
+/-- the production of an `Alternative` (kept in Python's order: its last element is on top) -/
+def advR {σ : Type} (act : Sym → σ → R σ) (k : TK) : List Sym → σ → R (Option (Sym × List Sym) × σ)
+  | [], st => .ok (none, st)
+  | x :: xs, st =>
+      match advR act k xs st with
+      | .ok (some (y, rem), st') => .ok (some (y, rem ++ [x]), st')
+      | .ok (none, st') => advS act k x st'
+      | .error x => .error x
+end
 
 /-- `Parser.advance(symbol)` with `symbol` a terminal of class `k`; `act` is `action_function` -/
-def advance {σ : Type} (act : Sym → σ → R σ) (k : TK) : Nat → List Sym → σ → R (Sym × List Sym × σ)
-  | 0, _, _ => .error .fuel
-  | _+1, [], _ => .error .index                -- pop from empty list
-  | f+1, top :: ps, st =>
-    match top with
-    | .term k' _ => if k' == k then .ok (top, ps, st) else .error .other    -- "Internal Parser Exception"
-    | .rep e body => if e == k then .ok (.term k none, ps, st) else advance act k f (body ++ top :: ps) st
-    | .root body => advance act k f (body :: top :: ps) st
-    | .seq prod => advance act k f (prod ++ ps) st
-    | .alt syms _ _ => advance act k f (syms.reverse ++ ps) st
-    | a => do                                  -- an Action
-      let st ← act a st
-      advance act k f ps st
+def advance {σ : Type} (act : Sym → σ → R σ) (k : TK) (ps : List Sym) (st : σ) : R (Sym × List Sym × σ) :=
+  match advL act k ps st with
+  | .ok (some (y, rem), st') => .ok (y, rem, st')
+  | .ok (none, _) => .error .index             -- pop from empty list
+  | .error x => .error x
 
 /-! ### the encoder (`AvroJSONEncoder`) -/
 
@@ -233,10 +265,8 @@ structure ES where
   e : Enc
 deriving Inhabited
 
-def AFUEL : Nat := 1000000
-
 def ES.advance (st : ES) (k : TK) : R (Sym × ES) := do
-  let (top, ps, e) ← JM.advance encAct k (st.ps.length + AFUEL) st.ps st.e
+  let (top, ps, e) ← JM.advance encAct k st.ps st.e
   pure (top, { ps := ps, e := e })
 
 /-- `write_null`, `write_boolean`, `write_int`, … : advance to the terminal, then `write_value` -/
@@ -486,7 +516,7 @@ def symDefault : Sym → Option Val
   | _ => none
 
 def DS.advance (st : DS) (k : TK) : R (Sym × DS) := do
-  let (top, ps, d) ← JM.advance decAct k (st.ps.length + AFUEL) st.ps st.d
+  let (top, ps, d) ← JM.advance decAct k st.ps st.d
   pure (top, { ps := ps, d := d })
 
 /-- `read_null`, `read_boolean`, `read_int`, … -/
@@ -730,18 +760,47 @@ def mDecode (fuel : Nat) (env : Env) (s : Schema) (st : DS) : R (Val × DS) :=
     | some s' => mDecode fuel env s' st
     | none => .error .index
 
-/-- `Parser.drain_actions()` -/
-def drain : Nat → List Sym → Dec → R (List Sym × Dec)
-  | 0, _, _ => .error .fuel
-  | _+1, [], _ => .error .index
-  | f+1, top :: ps, d =>
-    match top with
-    | .root _ => .ok (top :: ps, d)
-    | .term _ _ => .error .other
-    | .seq prod => drain f (prod ++ ps) d
-    | .rep _ body => drain f (body ++ top :: ps) d
-    | .alt syms _ _ => drain f (syms.reverse ++ ps) d
-    | a => do let d ← decAct a d; drain f ps d
+/-! `Parser.drain_actions()`: pop until the root symbol is on top (it is pushed back); actions are executed,
+other non-terminals replaced by their production, a terminal is an error.  As for `advance`, by recursion over
+the symbols: `drainS sym` returns `some rem` when the root was met inside `sym`'s expansion. -/
+mutual
+def drainS : Sym → Dec → R (Option (List Sym) × Dec)
+  | .root body, d => .ok (some [.root body], d)
+  | .term _ _, _ => .error .other
+  | .seq prod, d => drainL prod d
+  | .rep e body, d =>
+      match drainL body d with
+      | .ok (some rem, d') => .ok (some (rem ++ [.rep e body]), d')
+      | .ok (none, _) => .error .fuel
+      | .error x => .error x
+  | .alt syms _ _, d => drainR syms d
+  | .enumLabels l, d => do let d' ← decAct (.enumLabels l) d; pure (none, d')
+  | .unionEnd, d => do let d' ← decAct .unionEnd d; pure (none, d')
+  | .recordStart x, d => do let d' ← decAct (.recordStart x) d; pure (none, d')
+  | .recordEnd, d => do let d' ← decAct .recordEnd d; pure (none, d')
+  | .fieldStart n, d => do let d' ← decAct (.fieldStart n) d; pure (none, d')
+  | .fieldEnd, d => do let d' ← decAct .fieldEnd d; pure (none, d')
+def drainL : List Sym → Dec → R (Option (List Sym) × Dec)
+  | [], d => .ok (none, d)
+  | x :: xs, d =>
+      match drainS x d with
+      | .ok (some rem, d') => .ok (some (rem ++ xs), d')
+      | .ok (none, d') => drainL xs d'
+      | .error e => .error e
+def drainR : List Sym → Dec → R (Option (List Sym) × Dec)
+  | [], d => .ok (none, d)
+  | x :: xs, d =>
+      match drainR xs d with
+      | .ok (some rem, d') => .ok (some (rem ++ [x]), d')
+      | .ok (none, d') => drainS x d'
+      | .error e => .error e
+end
+
+def drain (ps : List Sym) (d : Dec) : R (List Sym × Dec) :=
+  match drainL ps d with
+  | .ok (some rem, d') => .ok (rem, d')
+  | .ok (none, _) => .error .index
+  | .error e => .error e
 
 /-- the `_elems` loop of `reader` for a JSON decoder -/
 def mDecodeLoop (fuel : Nat) (env : Env) (s : Schema) : Nat → DS → List Val → R (List Val)
@@ -749,7 +808,7 @@ def mDecodeLoop (fuel : Nat) (env : Env) (s : Schema) : Nat → DS → List Val 
   | n+1, st, acc =>
     if st.d.done then pure acc else do
       let (v, st) ← mDecode fuel env s st
-      let (ps, d) ← drain (st.ps.length + AFUEL) st.ps st.d
+      let (ps, d) ← drain st.ps st.d
       let d := match d.data with
         | x :: rest => { d with current := x, key := .none, data := rest }
         | [] => { d with done := true }
